@@ -44,13 +44,23 @@ MODULES = ['mahotas', 'mahotas.morph', 'mahotas.convolve', 'mahotas.labeled', 'm
            'mahotas.edge', 'mahotas.thin', 'mahotas.euler', 'mahotas.bbox', 'mahotas.center_of_mass', 'mahotas.histogram']
 
 VARIANTS = ['valid', 'wrong_dtype', 'wrong_shape', 'wrong_shape_t', 'strided', 'negstride', 'fortran', 'readonly', 'alias', 'alias_strided',
-            # round 4: out IS array argument k (the image for k = the function's image position; second operands are judged
-            # only where the wrapper has a guard for them: subm's b, cerode's g), out overlapping the image partially,
-            # documented dtype in the other byte order, zero-size and 0-d buffers, a zero-stride (broadcast) view
-            'alias_in0', 'alias_in1', 'alias_in2', 'alias_overlap', 'byteswapped', 'zerosize', 'zerosize_out', 'zerod', 'broadcast']
-ALIAS_IN = {'alias_in0': 0, 'alias_in1': 1, 'alias_in2': 2}
-# second operands that the wrappers protect with a guard of their own (judged like the image itself)
-ALIAS_JUDGED_OTHER = {('mahotas.morph.subm', 1), ('mahotas.morph.cerode', 1)}
+            # round 4: out aliases array argument k (k = 0, 1, 2: the image AND every other array operand - structuring element,
+            # weights, template, cerode's g, subm's b), in three forms: `in` the very object, `view` another view object over
+            # exactly the same memory (`a[:]`, `a.reshape(a.shape)`), `shift` a C-contiguous view of one larger 1-D buffer
+            # that overlaps the argument by a shift of +-1 ... +-row elements (the argument is then a view of that buffer too);
+            # then: documented dtype in the other byte order, zero-size input with matching out, zero-size out, 0-d out, a
+            # zero-stride (broadcast) view
+            'alias_in0', 'alias_in1', 'alias_in2', 'alias_view0', 'alias_view1', 'alias_view2',
+            'alias_shift0', 'alias_shift1', 'alias_shift2',
+            'byteswapped', 'zerosize', 'zerosize_out', 'zerod', 'broadcast']
+
+
+def _alias_form(variant):
+    """'alias_view1' -> ('view', 1); None for the other variants"""
+    for form in ('in', 'view', 'shift'):
+        if variant.startswith('alias_' + form) and variant[len('alias_' + form):].isdigit():
+            return form, int(variant[len('alias_' + form):])
+    return None
 
 
 def dtcode(dt):
@@ -274,28 +284,32 @@ def _mk_out(variant, shape, dtype, g, args, e):
         v[...] = a
         args[e['inp']] = v
         return v, False
-    if variant in ALIAS_IN:
-        k = ALIAS_IN[variant]
+    af = _alias_form(variant)
+    if af is not None:
+        form, k = af
         if k >= len(args) or not isinstance(args[k], np.ndarray):
             return None
         a = args[k]
         if a.shape != shape or a.dtype != dtype or not a.flags.c_contiguous or a.ndim == 0 or a.size == 0:
             return None
-        if k == e['inp'] or (e['path'], k) in ALIAS_JUDGED_OTHER:
+        if form == 'in':
             return a, True
-        return a, 'observe'       # a structuring element / weights / template as out: recorded, not judged
-    if variant == 'alias_overlap':
-        # out starts one row (one element for 1-D) behind the image inside one common root: partial overlap
-        a = args[e['inp']]
-        if a.shape != shape or a.dtype != dtype or a.ndim == 0 or a.size < 2:
+        if form == 'view':
+            v = a[...] if g.r.random() < 0.5 else a.reshape(a.shape)
+            return (v, True) if v is not a else None
+        # shift: argument and out are both C-contiguous views of ONE 1-D root, `d` elements apart (0 < |d| <= one row)
+        if n0 < 2:
             return None
-        step = int(np.prod(shape[1:])) if len(shape) > 1 and shape[0] > 1 else 1
-        root = _carve((2 * n0 + step,), dtype)
-        img = root[:n0].reshape(shape)
+        row = int(np.prod(shape[1:])) if len(shape) > 1 else 1
+        d = g.r.choice([1, -1, row, -row, g.r.randint(1, max(1, row)), -g.r.randint(1, max(1, row))])
+        if abs(d) >= n0:
+            d = 1 if d > 0 else -1
+        root = _carve((n0 + abs(d),), dtype, slack=n0)
+        lo_a, lo_o = (0, d) if d > 0 else (-d, 0)
+        img = root[lo_a:lo_a + n0].reshape(shape)
         img[...] = a
-        args[e['inp']] = img
-        o = root[step:step + n0].reshape(shape)
-        return o, True
+        args[k] = img
+        return root[lo_o:lo_o + n0].reshape(shape), True
     if variant == 'byteswapped':
         if dtype.itemsize == 1 or 'dtype' not in e['req'] and not e['path'].endswith('.zoom'):
             return None
@@ -331,14 +345,28 @@ def _pre(case, e, g, args):
     """round 4: variants that change the *inputs* (before the reference call without out is made)"""
     v = case['variant']
     k = e['inp']
-    if v in ALIAS_IN or v == 'alias_overlap':
-        # give the image the documented result dtype where that is a fixed one, so that it CAN serve as its own out
-        a = args[k]
-        if e['res'] not in (None, 'same') and isinstance(a, np.ndarray) and a.dtype != np.dtype(e['res']):
-            args[k] = (a != 0) if np.dtype(e['res']) == np.bool_ else a.astype(e['res'])
+    af = _alias_form(v)
+    if af is not None:
+        form, j = af
+        if j >= len(args) or not isinstance(args[j], np.ndarray):
+            return
+        want = None if e['res'] in (None, 'same') else np.dtype(e['res'])
         if e['path'].endswith('.zoom'):
-            args[1] = 1.0          # out fixes the shape: the image can only be its own out when the shape is kept
-        args[k] = np.ascontiguousarray(args[k])
+            args[1] = 1.0          # out fixes the shape: an argument can only be the out when the shape is kept
+        if j != k and isinstance(args[k], np.ndarray):
+            # a second operand can only be the out when the image has ITS shape: shrink / tile the image
+            if args[j].ndim != args[k].ndim or args[j].size == 0:
+                return
+            shp0 = args[k].shape
+            for i, x in enumerate(args):      # the image and its same-shaped companions (cerode's g, subm's b)
+                if i != j and isinstance(x, np.ndarray) and x.shape == shp0:
+                    args[i] = np.resize(x, args[j].shape)
+            if want is None and e['res'] == 'same':
+                want = args[k].dtype
+        if want is not None and args[j].dtype != want:
+            # give the argument the documented result dtype where that is a fixed one, so that it CAN serve as the out
+            args[j] = (args[j] != 0) if want == np.bool_ else args[j].astype(want)
+        args[j] = np.ascontiguousarray(args[j])
     elif v == 'zerosize':
         a = args[k]
         if not isinstance(a, np.ndarray) or a.ndim == 0:
@@ -430,10 +458,10 @@ def _eval_out(cases):
         arr_desc = np.empty(b0.shape, inp.dtype if e['res'] == 'same' else b0.dtype)
         flow = e['flow']
         line = 'ping'
-        if case['variant'] in ALIAS_IN:
+        if _alias_form(case['variant']) is not None:
             flow = None
             if e['aflow'] is not None and out.ndim > 0:
-                line = (f"c09 kind=alias fn={e['aflow']} i={ALIAS_IN[case['variant']]} guard=1 {_desc('a', out)} dt={dtcode(b0.dtype)}")
+                line = (f"c09 kind=alias fn={e['aflow']} i={_alias_form(case['variant'])[1]} guard=1 {_desc('a', out)} dt={dtcode(b0.dtype)}")
         if flow in ('kernel', 'label', 'open', 'close', 'cerode', 'subm', 'tophat_open', 'tophat_close', 'gaussian', 'gaussian1d'):
             fl = {'label': 'kernel'}.get(flow, flow)
             if flow in ('open', 'close') and case['param'] == 'output':
@@ -473,7 +501,7 @@ def _eval_out(cases):
         out, valid = ob
         findings = []
         root = c08._root(out)
-        aliasing = variant == 'alias' or variant in ALIAS_IN or variant == 'alias_overlap'
+        aliasing = variant == 'alias' or _alias_form(variant) is not None
         before_root = root.tobytes() if not aliasing else None
         ins_before = [c08._digest(a) for a in args if isinstance(a, np.ndarray)]
         try:
@@ -539,14 +567,14 @@ def _eval_out(cases):
         elif variant == 'readonly':   # read-only: the statement does not speak about it; recorded in the distribution only
             tags['readonly'] = 'written' if touched else ('rejected' if outcome[0] == 'exc' else 'unwritten')
         # the Lean model's prediction for this wrapper
-        if variant in ALIAS_IN and 'same' in drv:
+        if _alias_form(variant) is not None and 'same' in drv:
             # `out` is an input: the aliasing model says whether the call returns that buffer holding the result of the call without out
             real_same = (outcome[0] == 'ok' and _same_array(outcome[1][0] if isinstance(outcome[1], tuple) else outcome[1], out)
                          and c08.same(c08.canon(np.array(out)), c08.canon(b0)) is None)
             tags['model'] = 'alias-safe' if drv['same'] == '1' else 'alias-unspecified'
             if drv['same'] == '1' and drv.get('ret') == 'out' and not real_same and not findings:
                 findings.append(dict(kind='model', key=f"{tags['fn']}:alias-model", detail=dict(det, model=drv)))
-        elif variant in ALIAS_IN:
+        elif _alias_form(variant) is not None:
             pass
         elif (valid is not None or e['flow'] == 'zoom') and 'res' in drv:
             pred_ok = drv['res'] == 'ok' and drv.get('ret') == 'out'
